@@ -2402,7 +2402,9 @@ impl LuaGenerator for TokenBasedLuaGenerator<'_> {
         if let Some(token) = string.get_token() {
             self.write_token(token);
         } else {
-            self.write_symbol(&utils::write_string(string.get_value()));
+            // a string created by a rule has no line of its own: written in a long bracket its
+            // line feeds would push the following tokens off their lines
+            self.write_symbol(&utils::write_string_on_one_line(string.get_value()));
         }
     }
 
